@@ -2,7 +2,7 @@
    Only statements here; proofs are in Keys.v, SketchProofs.v, BloomProofs.v, TinyLFUProofs.v,
    PolicyProofs.v, CacheNoPanic.v, CacheInv.v. *)
 From StrettoModel Require Import Base Metrics Sketch SketchProofs Bloom BloomProofs TinyLFU TinyLFUProofs Policy PolicyProofs
-  Ttl Store Cache Keys CacheProofs CacheInv CacheNoPanic.
+  Ttl Store Cache Keys CacheProofs CacheInv CacheNoPanic PolicyLive.
 Open Scope N_scope.
 
 (* The builder rejects exactly zero num_counters, zero max_cost, zero buffer size, with that error
@@ -94,3 +94,16 @@ Example C20_tiny_config_runs :
   | None => 0%nat
   end = 7%nat.
 Proof. vm_compute. reflexivity. Qed.
+
+(* Operations complete: the admission decision of LFUPolicy::add always comes to an end.  For every
+   policy state and every newcomer there is a legal sequence of sample refills (the canonical one)
+   under which the eviction loop returns — it never runs for ever, although a refill can re-add keys
+   that are already sampled and evicting a duplicated key leaves a stale copy that frees nothing
+   (measure: six times the charged keys plus the stale sample entries; proof in PolicyLive.v). *)
+Theorem C20_admission_decision_terminates :
+  forall est s k cost,
+  (forall x, (est x < I64MAX)%Z) -> WF s ->
+  exists oracle,
+    match pol_add est oracle s k cost with AddDone _ _ _ _ _ => True | AddPanic => True | _ => False end.
+Proof. exact pol_add_returns. Qed.
+Print Assumptions C20_admission_decision_terminates.
